@@ -31,7 +31,7 @@ no_oob_push abs_buf_push_u8 abs_buf_push_u32 abs_buf_push_self bpush_self_no_ub 
 abs_buf_push_byte abs_buf_push_string abs_buf_push_word abs_buf_push_at pushat_error_truncates abs_buf_put abs_buf_putindex abs_buf_trim
 abs_buf_clear abs_buf_fill_all abs_buf_new_filled abs_buf_from_bytes abs_buf_slice no_oob_blit_decode no_oob_blit_dest abs_buf_blit_full
 no_oob_bitloc abs_buf_bit_set abs_buf_bit_clear abs_buf_bit_toggle abs_buf_bit_get bstep_abs buf_inv_reachable
-abs_new_filled abs_peek abs_clear_seq abs_join ajoin_not_indexed_err
+abs_new_filled abs_peek abs_clear_seq abs_join ajoin_not_indexed_err abs_remove_exact
 count_putKey_le pow2_step_bounded capacity_pow2_reachable capacity_pow2_run
 struct_inv_of_check struct_rawget_spec struct_get_spec struct_get_depth_cutoff struct_proto_irrelevant struct_next_visits_each_key_once
 struct_to_table_spec to_struct_certified thaw_freeze_same_map table_rawget_ignores_proto
@@ -462,6 +462,20 @@ def deep_proto_scenario(depth, key="K3"):
         if i in (0, 1, 197, 198, 199, 200, 201, depth - 2):
             ops += ["get %s %s" % (cur, key), "in %s %s" % (cur, key), "rawget %s %s" % (cur, key), "next %s nil" % cur, "len %s" % cur, "keys %s" % cur]
     ops += ["setproto T2 T2", "get T2 %s" % key, "put T2 %s v9" % key, "get T2 %s" % key, "setproto T3 T2", "get T3 %s" % key, "rawget T3 %s" % key, "pairs T3"]
+    return ops
+
+
+def deep_struct_proto_scenario(depth, key="K3"):
+    """a struct prototype chain of `depth` structs with the key only in the deepest one: janet_struct_get_ex must find it
+    through at most JANET_MAX_PROTO_DEPTH levels and cut off beyond; rawget / next / len never look past the struct itself"""
+    ops = ["mkstruct S0 %s v7" % key]
+    cur, other = "S0", "S1"
+    for i in range(2, depth + 1):
+        ops += ["mkstruct %s" % other, "withproto %s %s %s" % (other, cur, other)]
+        cur, other = other, cur
+        if i in (2, 3, 4, 199, 200, 201, 202, depth):
+            ops += ["get %s %s" % (cur, key), "in %s %s" % (cur, key), "rawget %s %s" % (cur, key), "next %s nil" % cur, "len %s" % cur, "getproto %s" % cur]
+    ops += ["totable %s T0" % cur, "len T0", "getproto T0"]
     return ops
 
 
@@ -1323,6 +1337,7 @@ def run(ctx, only_ops=None):
     for name, ops in corpus_histories():
         hists.append(("corpus:" + name, ops))
     hists.append(("deep-proto", deep_proto_scenario(260)))
+    hists.append(("deep-proto", deep_struct_proto_scenario(230)))
     if only_ops is not None:
         hists = [("replay", only_ops)]
     else:
